@@ -195,11 +195,13 @@ CLAIMED['C08'] = dict(
          'obligations the flip and re-association steps need, the re-association step for every operator flagged associative (reassoc_sound), '
          'set-literal de-duplication (eval_set_dedupe), and THE RECURSION OVER THE WHOLE TERM: soundAt / simplify_sound_of_calls, by induction '
          'on the fuel of the seven mutually recursive model functions - every result of simplify preserves the value of its input under every '
-         'valuation on which the input evaluates, for terms of any size, given CallFoldSound (soundness of the constant folding of one built-in '
-         'function call), which is a stated hypothesis, not a theorem. Function folding and whole-term meaning are also judged by the Lean '
+         'valuation on which the input evaluates, for terms of any size; the folding of abs/bool/int/float/ceil/floor is proved against the '
+         'evaluator for every oracle that does not extend the interpreted functions (callFold_sound, Props/C08d), the folding of '
+         'str/len/sum/prod/max/min/gcd is a stated hypothesis (AggFoldSound). Also proved: the result is well-typed (simplify_WT) and has '
+         'exactly the type of the input (simplify_ty). Function folding and whole-term meaning are also judged by the Lean '
          'evaluator on a valuation grid on every implementation output (which found the seven defects now fixed in /repo).',
     design_ref='DESIGN.md §0.1, §6 C08',
-    note='PARTIAL: SimplifySound is proved conditionally on CallFoldSound (folding of abs/bool/int/float/str/len/sum/prod/max/min/gcd/ceil/floor); '
+    note='PARTIAL: SimplifySound is proved conditionally on AggFoldSound (folding of str/len/sum/prod/max/min/gcd over literals); '
          'fuel sufficiency of simpFuel is not proved. Exact rational arithmetic; NaN and arithmetic on infinities are errors of the original and '
          'constrain nothing; math functions are uninterpreted.',
     technique='Lean 4 proof by induction over the simplifier recursion (conditional on function-call folding) + full model correspondence + spec evaluation of every output')
@@ -231,7 +233,9 @@ CLAIMED['C01'] = dict(
 CLAIMED['C06'] = dict(
     text='Lean 4 theorem parse_toks_roundtrip (Props/C06b): for every expression tree the parser can produce (Raw.printable, decidable; every '
          'node kind, any depth) the recursive-descent parser model applied to the token sequence of the printed form (Raw.toks) returns exactly '
-         'that tree and consumes every token, with the fuel the model gives itself (need_le); same inside braces for predicates. Proved by mutual '
+         'that tree and consumes every token, with the fuel the model gives itself (need_le); same inside braces for predicates; and at property '
+         'and file level (Props/C06c: parse_property_toks_roundtrip, parse_file_toks_roundtrip - annotations, scopes, patterns, event '
+         'disjunctions, time bounds; k printed properties are read back as exactly those k). Proved by mutual '
          'structural induction with one lemma per grammar level. The lexer is outside the theorem: on every generated text the driver checks '
          'that the parser output is printable and that lexing the printed form gives Raw.toks (rtcheck). Lean model of every __str__ '
          '(expressions, predicates, events with flat disjunctions, scopes, patterns with ms/s time bounds, properties, specifications) compared '
@@ -239,8 +243,8 @@ CLAIMED['C06'] = dict(
          'decided on the implementation for every node kind, widths up to 4 and 27 time bounds over 18 orders of magnitude. Two defects found '
          'and fixed in /repo (function-call and n-ary disjunction printing).',
     design_ref='DESIGN.md §0.1, §6 C06',
-    note='PARTIAL: the theorem is at token level for expressions and predicates; the scanner (text to tokens) and the property / specification '
-         'level round trip are tied by correspondence and direct checks, not proved.',
+    note='PARTIAL: the theorems are at token level; the scanner (text to tokens) and the float formatting of time bounds are tied by '
+         'correspondence and direct checks, not proved.',
     technique='Lean 4 proof of the token-level print/parse round trip by structural induction + printer/lexer correspondence + direct round-trip checks on the implementation')
 CLAIMED['C07'] = dict(
     text='Lean 4 theorems over the model in which every assert / unchecked lookup of hpl.ast is an explicit internal outcome: '
